@@ -26,6 +26,8 @@ func (w *world) indepRows(t *wTask) (rows []string, ok bool) {
 		sig = transferEvent.SignatureHash()
 	case "Approval":
 		sig = approvalEvent.SignatureHash()
+	case "":
+		return w.indepItemRows(t)
 	default:
 		return nil, false
 	}
@@ -87,6 +89,53 @@ func (w *world) indepRows(t *wTask) (rows []string, ok bool) {
 				}
 				_, p := t.rowDigest(vals)
 				rows = append(rows, fmt.Sprintf("%d:%s", n, p))
+			}
+		}
+	}
+	return rows, true
+}
+
+// indepItemRows: the same for a declaration WITHOUT an event and without filters: one row per
+// transaction, or one row per trace action when a trace field is selected; every column is a block /
+// transaction / trace field read from the node's own data.
+func (w *world) indepItemRows(t *wTask) (rows []string, ok bool) {
+	trace := false
+	for _, b := range t.cig.Block {
+		if b.Filter.Op != "" || len(b.Filter.Arg) != 0 || b.Filter.Ref.Integration != "" || b.Filter.Ref.Table != "" {
+			return nil, false
+		}
+		if isLogField(b.Name) || b.Name == "abi_idx" {
+			return nil, false
+		}
+		if isTraceField(b.Name) {
+			trace = true
+		}
+		if expectField(b.Name, item{b: &simnode.Block{}, t: &simnode.Tx{}, l: &simnode.Log{}, ta: &simnode.Trace{}}, "", "", 0) == "?unknown-field" {
+			return nil, false
+		}
+	}
+	var chain *simnode.Chain
+	w.node.With(func(c *simnode.Chain) { chain = c.Clone() })
+	for n := 1; n < len(chain.Blocks); n++ {
+		b := &chain.Blocks[n]
+		for ti := range b.Txs {
+			tx := &b.Txs[ti]
+			emit := func(it item) {
+				vals := map[string]string{}
+				for _, bd := range t.cig.Block {
+					if bd.Column != "" {
+						vals[bd.Column] = expectField(bd.Name, it, t.src, t.ig, 7)
+					}
+				}
+				_, p := t.rowDigest(vals)
+				rows = append(rows, fmt.Sprintf("%d:%s", n, p))
+			}
+			if !trace {
+				emit(item{b: b, t: tx})
+				continue
+			}
+			for xi := range tx.Traces {
+				emit(item{b: b, t: tx, ta: &tx.Traces[xi], ti: xi})
 			}
 		}
 	}
